@@ -32,7 +32,7 @@ def build_case(ctx, rng, cid):
         codec = rng.choice([None, None, None, "gz", "bz2", "xz", "lz4", "tar"])
         chrono = rng.random() < 0.85
         s = cases.make_source(rng, sid, cnt, t0 + rng.choice([0, 0, 1, 2]) * gen.NS, tz_min,
-                              mode=shared_mode, codec=codec, chrono=chrono)
+                              mode=shared_mode, codec=codec, chrono=chrono, traces=rng.choice([0, 0, 0, 0.2, 0.5]))
         s.write(d, rng)
         srcs.append(s)
     return d, srcs, tz_min
